@@ -296,10 +296,12 @@ func genC06(o *out, r *Rng) {
 			// the same literal laid out in different ways (different content, different labels), and different
 			// literals with the same final content (one label)
 			long := []string{"One two three four five six seven eight nine ten", "Hello"}[r.N(2)]
-			forms := []string{"\"" + long + "\"", "format(\"" + long + "\")", "format(\"" + long + "\", 40)", "format(\"" + long + "\", 40, \"1_latin_rse\")", "format(\"" + long + "\", maxLineLength=0x28)",
+			forms := []string{"format(\"" + long + "\", 60, cursorOverlapWidth=0)", "format(\"" + long + "\", 60, cursorOverlapWidth=30)", "format(\"" + long + "\", 60, cursorOverlapWidth=55)",
+				"format(\"" + long + "\", 100, cursorOverlapWidth=40, numLines=1)", "format(\"" + long + "\", 100, cursorOverlapWidth=1, numLines=1)", "format(\"" + long + "\", 100, numLines=3, cursorOverlapWidth=40)",
+				"\"" + long + "\"", "format(\"" + long + "\")", "format(\"" + long + "\", 40)", "format(\"" + long + "\", 40, \"1_latin_rse\")", "format(\"" + long + "\", maxLineLength=0x28)",
 				"format(\"" + long + "\", numLines=1)", "format(\"" + long + "\", 300)", "\"" + long + "$\"", "ascii\"" + long + "\""}
 			t = append(t, "script", fmt.Sprintf("Fm%d", i), "{")
-			for k := 2 + r.N(3); k > 0; k-- {
+			for k := 2 + r.N(4); k > 0; k-- {
 				t = append(t, "msgbox", "(", forms[r.N(len(forms))], ")")
 			}
 			t = append(t, "}")
@@ -579,6 +581,15 @@ func genC10(o *out, r *Rng) {
 	o.dir("PROJ", "text")
 	o.dir("ORACLE", "cmdline")
 	seeds(o, Opts{Sw: defSw})
+	// commands inside conditions (AutoVar commands) pass through like statements: inline strings / moves() become labels in every
+	// construct that has a condition (no line with an empty argument)
+	for _, c := range []string{"msgbox(\"ask\", MSGBOX_YESNO) == YES", "flag(A) && msgbox(\"second\") == 1", "multichoice(0, 0, moves(walk_up), \"mc\") == 1 || flag(B)", "!yesnobox(\"q\", 20, 8)",
+		"flag(A) || flag(B) || msgbox(format(\"third one\")) == 2", "checkitem(ITEM_A, 1) && msgbox(\"x\") == 1 && multichoice(1, moves(face_up)) == 0"} {
+		for _, s := range []string{"script S { if (" + c + ") { a } tail(1, 2) }", "script S { if (flag(Z)) { z } elif (" + c + ") { a } else { b } }", "script S { while (" + c + ") { a(1) } }", "script S { do { a(X, Y) } while (" + c + ") }",
+			"script S { do { msgbox(\"body\") } while (" + c + ") b }", "mapscripts M { MAP_SCRIPT_ON_LOAD { do { a } while (" + c + ") } }", "script S { while (flag(Q)) { do { x } while (" + c + ") } }"} {
+			o.e2eBoth(s, Opts{Sw: defSw})
+		}
+	}
 	atoms := []string{"foo", "VAR_1", "7", "0x1F", "-3", "*", "+", "==", "<", "if", "value", "var", "global", "local", "TRUE", "script", "(", ")"}
 	names := []string{"lock", "setvar", "special", "callnative", "end", "return", "goto", "setobjectscope", "local_cmd", "x", "héllo", "msgbox", "waitstate", "faceplayer"}
 	for i := 0; i < scale(1500, 30000); i++ {
@@ -699,6 +710,16 @@ func genC11(o *out, r *Rng) {
 		} {
 			o.e2eBoth(s, Opts{Sw: defSw, Cfg: cfg})
 		}
+		// constants named like the result var, or chained constants in the argument at the configured position: the compared var is
+		// the configured name / the argument AS RENDERED in the command
+		for _, s := range []string{
+			"const VAR_RESULT = VAR_TEMP_1\nconst VAR_RANDOM = VAR_TEMP_2\nconst VAR_A = VAR_TEMP_3\nscript S { switch (random(4)) { case 0: a case 1: b } }",
+			"const VAR_RESULT = VAR_TEMP_1\nconst VAR_RANDOM = VAR_TEMP_2\nconst VAR_A = VAR_TEMP_3\nscript S { if (checkitem(I) == 2) { a } switch (checkitem(J)) { case 1: b default: c } }",
+			"const A = B\nconst B = VAR_X\nscript S { switch (specialvar(A, F)) { case 1: c } tail }", "const A = B\nconst B = VAR_X\nscript S { if (specialvar(A, F) == 1) { c } while (random(A) != 0) { d } }",
+			"const A = B\nconst B = VAR_X\nscript S { switch (checkitem(A)) { case B: c case 2: d } }", "const X = 1\nconst VAR_RESULT = X\nscript S { do { a } while (random(2) == X) switch (random(3)) { case X: b } }",
+		} {
+			o.e2eBoth(s, Opts{Sw: defSw, Cfg: cfg})
+		}
 		// an AutoVar command with an inline text / format() / moves() argument in every operand position of a chain
 		autos := []string{"checkitem(\"Hello\") == 2", "random(format(\"Hi there\")) != 1", "checkitem(I, moves(walk_up face_down))", "!checkitem(\"Bye\", 3)", "specialvar(VAR_R, \"T\") > 1"}
 		plain := []string{"flag(A)", "var(V) == 1", "!flag(B)", "defeated(T)"}
@@ -793,6 +814,20 @@ func genC12(o *out, r *Rng) {
 		{"mart M { poryswitch(V) { _ { ITEM_Z }\n A: } ITEM_B }", "mart M { ITEM_B }"},
 		{"script S { x(moves(walk_up poryswitch(V) { A {} _ { walk_down } } face_left)) }", "script S { x(moves(walk_up face_left)) }"},
 		{"script S { x(moves(poryswitch(V) { A {} })) }", "script S { x(moves()) }"},
+	} {
+		o.add(Case{"META", []string{"V=A,W=B", Hex(pr[0]), Hex(pr[1])}})
+		o.add(E2E(pr[0], Opts{Opt: true, Sw: defSw}))
+	}
+	// case labels are compared as written: a constant named like a label (or like the switch value) changes nothing
+	for _, pr := range [][2]string{
+		{"const A = 2\nscript S { poryswitch(V) { A: a _: b } }", "const A = 2\nscript S { a }"},
+		{"const A = B\nscript S { poryswitch(V) { B: b A { a } _: c } }", "const A = B\nscript S { a }"},
+		{"const B = A\nscript S { poryswitch(V) { B: b _: c } }", "const B = A\nscript S { c }"},
+		{"const A = 2\ntext T { poryswitch(V) { A: \"a\" _: \"b\" } }", "const A = 2\ntext T { \"a\" }"},
+		{"const A = 2\nmovement M { poryswitch(V) { A: walk_up _: walk_down } }", "const A = 2\nmovement M { walk_up }"},
+		{"const A = 2\nmart M { poryswitch(V) { _: ITEM_Z\n A: ITEM_A } }", "const A = 2\nmart M { ITEM_A }"},
+		{"const A = 2\nconst V = W\nscript S { x(moves(poryswitch(V) { A: walk_up _: walk_down })) }", "const A = 2\nconst V = W\nscript S { x(moves(walk_up)) }"},
+		{"const _ = A\nscript S { poryswitch(W) { A: a _: b } }", "const _ = A\nscript S { b }"},
 	} {
 		o.add(Case{"META", []string{"V=A,W=B", Hex(pr[0]), Hex(pr[1])}})
 		o.add(E2E(pr[0], Opts{Opt: true, Sw: defSw}))
@@ -998,6 +1033,14 @@ func genC15(o *out, r *Rng) {
 	randomScripts(o, r, scale(200, 4000), func(g *ScriptGen) { g.UseScope = true; g.UseText = true }, 0)
 	// the same inline text in two scripts
 	o.e2eBoth("script A { msgbox(\"same\") msgbox(\"own\") }\nscript(local) B { msgbox(\"same\") }", Opts{Sw: defSw})
+	// lint mode accepts a text / movement statement named like a generated label (D20): its scope is still the written one
+	for _, sc := range []string{"", "(global)", "(local)"} {
+		for _, s := range []string{"script S { msgbox(\"t\") }\ntext" + sc + " S_Text_0 { \"user\" }", "text" + sc + " S_Text_0 { \"user\" }\nscript S { msgbox(\"t\") msgbox(\"u\") }",
+			"script S { x(moves(walk_up)) }\nmovement" + sc + " S_Movement_0 { walk_down }", "script S { poryswitch(V) { A: a _: msgbox(\"t\") } }\ntext" + sc + " S_Text_0 { \"user\" }"} {
+			o.add(E2E(s, Opts{Opt: true, Lint: true}))
+			o.add(E2E(s, Opts{Opt: false, Lint: true, Sw: defSw}))
+		}
+	}
 }
 
 func genC16(o *out, r *Rng) {
